@@ -2,8 +2,9 @@
    Theorems over R about the model coq/C10/CxDefs.v instantiated with R_ops / R_ext (exact real arithmetic, libm names
    = the real functions).  RO = R_ops, RE = R_ext, C = R * R (Coquelicot).  `*_fb` = fallback body, `c*_ B` = the function
    under the binding B of the A_HAVE_C* switches, fb_bind = all switches off.
-   NOT carried by any theorem: floating-point rounding ("within a small multiple of machine precision") - that part of the
-   property is sampled by checks/C10.py (tie 2) and is PARTIAL. *)
+   Floating-point rounding ("within a small multiple of machine precision") is carried by the theorems of the last section
+   (field arithmetic and modulus at the rounded-real instance, C10/CxRound*.v); for the transcendental functions that part of
+   the property is sampled by checks/C10.py (tie 2) and is PARTIAL. *)
 From Coq Require Import Reals ZArith.
 From Coquelicot Require Import Coquelicot.
 From LibaV Require Import Common.NumOps Common.ROps C10.CxDefs C10.CxReal C10.CxField C10.CxSqrt C10.CxExpLog C10.CxConst
@@ -298,3 +299,297 @@ Print Assumptions c10_acos_real_residual.
 Theorem c10_acosh_real_residual : forall x, Ccosh (acosh_real RO RE x) = (x, 0) /\ 0 <= fst (acosh_real RO RE x).
 Proof. exact acosh_real_residual. Qed.
 Print Assumptions c10_acosh_real_residual.
+
+(* ---------------------------------------------------------------- rounding-error bounds of the FIELD arithmetic
+   The theorems above are exact statements over R.  The theorems below bound the FORWARD ERROR of the same Gallina terms
+   (cadd, csub, mul_, div_, inv_, the scalar forms, abs2, cabs - tied to the current src/complex.c for EVERY NumOps instance by
+   harness/C10/TieCx*.v) run at a ROUNDED-REAL instance (every + - * / followed by rnd) against their exact value, in the
+   standard model of floating-point arithmetic with gradual underflow  std_model rnd eps eta : |rnd v - v| <= eps |v| + eta
+   (Common/RoundOps.v), for EVERY such rnd; IEEE binary64 round-to-nearest-even is an instance with eps64 = 2^-53,
+   eta64 = 2^-1075 (Flocq, Common/RoundFlocq.v).  Proofs: C10/CxRound.v, C10/CxRound64.v.
+   The modulus:  complex.c calls a_real_hypot (libm hypot, or a_real_norm2 of src/math.c when A_HAVE_HYPOT is off); the model
+   writes fn2 O Hypot.  Rnd_ops_hyp rnd hyp is Rnd_ops rnd with fn2 Hypot := hyp, an ARBITRARY function about which only the
+   accuracy at the argument is assumed (|hyp c d - |z|| <= 2 eps |z|: a hypot with one ulp of error, or the correctly rounded
+   one); *_cr: the instance Rnd_ops rnd itself (correctly rounded hypot - an idealisation of libm);  *_fallback: Rnd_ops_fb rnd,
+   whose modulus is real_norm2 (Rnd_ops rnd), the rounded a_real_norm2 (C11_norm2_rounding_bound supplies its accuracy).
+   Range hypotheses of inv_/div_:  eta <= eps |z|  and  eta |z| <= eps  (|z| and 1/|z| in the normal range: 2^-1022 <= |z| <=
+   2^1022 in binary64), rnd 1 = 1, eps <= 1/64 (1/128 for the fallback).  Overflow is outside the model.  The constants are
+   explicit, not sharp (std_model gives eps |v| + eta where IEEE gives the max of the two).
+   NOT covered: sqrt/exp/log/pow/trigonometric/hyperbolic functions and their inverses - their accuracy stays sampled (tie 2).
+   Non-vacuity: c10_rounding_nonvacuous_id / _scale / _binary64. *)
+From LibaV Require Import Common.RoundOps Common.RoundFlocq C10.CxRound C10.CxRound64.
+From LibaV Require C11.MathDefs.
+
+(* add, sub: one rounding per component *)
+Theorem c10_add_rounding_bound : forall (rnd : R -> R) (eps eta : R), std_model rnd eps eta -> forall x y : C,
+  Rabs (fst (cadd (Rnd_ops rnd) x y) - fst (Cplus x y)) <= eps * Rabs (fst (Cplus x y)) + eta /\
+  Rabs (snd (cadd (Rnd_ops rnd) x y) - snd (Cplus x y)) <= eps * Rabs (snd (Cplus x y)) + eta.
+Proof. exact add_round. Qed.
+Print Assumptions c10_add_rounding_bound.
+Theorem c10_sub_rounding_bound : forall (rnd : R -> R) (eps eta : R), std_model rnd eps eta -> forall x y : C,
+  Rabs (fst (csub (Rnd_ops rnd) x y) - fst (Cminus x y)) <= eps * Rabs (fst (Cminus x y)) + eta /\
+  Rabs (snd (csub (Rnd_ops rnd) x y) - snd (Cminus x y)) <= eps * Rabs (snd (Cminus x y)) + eta.
+Proof. exact sub_round. Qed.
+Print Assumptions c10_sub_rounding_bound.
+(* scalar forms: the touched component is rounded once, the other one is copied *)
+Theorem c10_add_real_rounding_bound : forall (rnd : R -> R) (eps eta : R), std_model rnd eps eta -> forall (x : C) (y : R),
+  Rabs (fst (add_real (Rnd_ops rnd) x y) - (fst x + y)) <= eps * Rabs (fst x + y) + eta /\ snd (add_real (Rnd_ops rnd) x y) = snd x.
+Proof. exact add_real_round. Qed.
+Print Assumptions c10_add_real_rounding_bound.
+Theorem c10_add_imag_rounding_bound : forall (rnd : R -> R) (eps eta : R), std_model rnd eps eta -> forall (x : C) (y : R),
+  fst (add_imag (Rnd_ops rnd) x y) = fst x /\ Rabs (snd (add_imag (Rnd_ops rnd) x y) - (snd x + y)) <= eps * Rabs (snd x + y) + eta.
+Proof. exact add_imag_round. Qed.
+Print Assumptions c10_add_imag_rounding_bound.
+Theorem c10_sub_real_rounding_bound : forall (rnd : R -> R) (eps eta : R), std_model rnd eps eta -> forall (x : C) (y : R),
+  Rabs (fst (sub_real (Rnd_ops rnd) x y) - (fst x - y)) <= eps * Rabs (fst x - y) + eta /\ snd (sub_real (Rnd_ops rnd) x y) = snd x.
+Proof. exact sub_real_round. Qed.
+Print Assumptions c10_sub_real_rounding_bound.
+Theorem c10_sub_imag_rounding_bound : forall (rnd : R -> R) (eps eta : R), std_model rnd eps eta -> forall (x : C) (y : R),
+  fst (sub_imag (Rnd_ops rnd) x y) = fst x /\ Rabs (snd (sub_imag (Rnd_ops rnd) x y) - (snd x - y)) <= eps * Rabs (snd x - y) + eta.
+Proof. exact sub_imag_round. Qed.
+Print Assumptions c10_sub_imag_rounding_bound.
+Theorem c10_mul_real_rounding_bound : forall (rnd : R -> R) (eps eta : R), std_model rnd eps eta -> forall (x : C) (y : R),
+  Rabs (fst (mul_real (Rnd_ops rnd) x y) - fst x * y) <= eps * Rabs (fst x * y) + eta /\
+  Rabs (snd (mul_real (Rnd_ops rnd) x y) - snd x * y) <= eps * Rabs (snd x * y) + eta.
+Proof. exact mul_real_round. Qed.
+Print Assumptions c10_mul_real_rounding_bound.
+Theorem c10_mul_imag_rounding_bound : forall (rnd : R -> R) (eps eta : R), std_model rnd eps eta -> forall (x : C) (y : R),
+  Rabs (fst (mul_imag (Rnd_ops rnd) x y) - (- snd x * y)) <= eps * Rabs (- snd x * y) + eta /\
+  Rabs (snd (mul_imag (Rnd_ops rnd) x y) - fst x * y) <= eps * Rabs (fst x * y) + eta.
+Proof. exact mul_imag_round. Qed.
+Print Assumptions c10_mul_imag_rounding_bound.
+Theorem c10_div_real_rounding_bound : forall (rnd : R -> R) (eps eta : R), std_model rnd eps eta -> forall (x : C) (y : R), y <> 0 ->
+  Rabs (fst (div_real (Rnd_ops rnd) x y) - fst x / y) <= eps * Rabs (fst x / y) + eta /\
+  Rabs (snd (div_real (Rnd_ops rnd) x y) - snd x / y) <= eps * Rabs (snd x / y) + eta.
+Proof. exact div_real_round. Qed.
+Print Assumptions c10_div_real_rounding_bound.
+Theorem c10_div_imag_rounding_bound : forall (rnd : R -> R) (eps eta : R), std_model rnd eps eta -> forall (x : C) (y : R), y <> 0 ->
+  Rabs (fst (div_imag (Rnd_ops rnd) x y) - snd x / y) <= eps * Rabs (snd x / y) + eta /\
+  Rabs (snd (div_imag (Rnd_ops rnd) x y) - (- fst x / y)) <= eps * Rabs (- fst x / y) + eta.
+Proof. exact div_imag_round. Qed.
+Print Assumptions c10_div_imag_rounding_bound.
+(* the values the scalar-form bounds compare with are those of the exact instance; neg and conj do not round *)
+Theorem c10_scalar_exact_values : forall (x : C) (y : R),
+  add_real RO x y = (fst x + y, snd x) /\ add_imag RO x y = (fst x, snd x + y) /\
+  sub_real RO x y = (fst x - y, snd x) /\ sub_imag RO x y = (fst x, snd x - y) /\
+  mul_real RO x y = (fst x * y, snd x * y) /\ mul_imag RO x y = (- snd x * y, fst x * y) /\
+  div_real RO x y = (fst x / y, snd x / y) /\ div_imag RO x y = (snd x / y, - fst x / y).
+Proof. exact scalar_exact_values. Qed.
+Print Assumptions c10_scalar_exact_values.
+Theorem c10_neg_conj_rounding_exact : forall (rnd : R -> R) (z : C), neg (Rnd_ops rnd) z = Copp z /\ conj (Rnd_ops rnd) z = Cconj z.
+Proof. exact neg_conj_exact. Qed.
+Print Assumptions c10_neg_conj_rounding_exact.
+
+(* the product: componentwise, and Higham's normwise bound sqrt 2 (2 eps + eps^2) |x| |z| with its underflow term *)
+Theorem c10_mul_rounding_bound : forall (rnd : R -> R) (eps eta : R), std_model rnd eps eta -> forall x z : C,
+  Rabs (fst (mul_ (Rnd_ops rnd) x z) - fst (Cmult x z))
+    <= (2 * eps + eps * eps) * (Rabs (fst x * fst z) + Rabs (snd x * snd z)) + (3 + 2 * eps) * eta /\
+  Rabs (snd (mul_ (Rnd_ops rnd) x z) - snd (Cmult x z))
+    <= (2 * eps + eps * eps) * (Rabs (fst x * snd z) + Rabs (snd x * fst z)) + (3 + 2 * eps) * eta.
+Proof. exact mul_round_comp. Qed.
+Print Assumptions c10_mul_rounding_bound.
+Theorem c10_mul_rounding_bound_normwise : forall (rnd : R -> R) (eps eta : R), std_model rnd eps eta -> forall x z : C,
+  Cmod (Cminus (mul_ (Rnd_ops rnd) x z) (Cmult x z)) <= Rsqrt 2 * ((2 * eps + eps * eps) * (Cmod x * Cmod z) + (3 + 2 * eps) * eta).
+Proof. exact mul_round_norm. Qed.
+Print Assumptions c10_mul_rounding_bound_normwise.
+Theorem c10_abs2_rounding_bound : forall (rnd : R -> R) (eps eta : R), std_model rnd eps eta -> forall z : C,
+  Rabs (abs2 (Rnd_ops rnd) z - Cmod z * Cmod z) <= (2 * eps + eps * eps) * (Cmod z * Cmod z) + (3 + 2 * eps) * eta.
+Proof. exact abs2_round. Qed.
+Print Assumptions c10_abs2_rounding_bound.
+
+(* 1/z and x/z, any modulus function accurate to 2 eps at z: 11 eps, resp. 14 eps componentwise and 19 eps normwise *)
+Theorem c10_inv_rounding_bound : forall (rnd : R -> R) (eps eta : R), std_model rnd eps eta ->
+  forall (hyp : R -> R -> R) (z : C),
+  rnd 1 = 1 -> eps <= / 64 -> z <> (0, 0) -> eta * Cmod z <= eps ->
+  Rabs (hyp (fst z) (snd z) - Cmod z) <= 2 * eps * Cmod z ->
+  let f := inv_ (Rnd_ops_hyp rnd hyp) z in
+  Rabs (fst f - fst (Cinv z)) <= 11 * eps * (Rabs (fst z) / (Cmod z * Cmod z)) + 2 * eta * (1 + 1 / Cmod z) /\
+  Rabs (snd f - snd (Cinv z)) <= 11 * eps * (Rabs (snd z) / (Cmod z * Cmod z)) + 2 * eta * (1 + 1 / Cmod z) /\
+  Cmod (Cminus f (Cinv z)) <= 11 * eps * (1 / Cmod z) + 2 * eta * (1 + 1 / Cmod z).
+Proof. exact inv_round. Qed.
+Print Assumptions c10_inv_rounding_bound.
+Theorem c10_div_rounding_bound : forall (rnd : R -> R) (eps eta : R), std_model rnd eps eta ->
+  forall (hyp : R -> R -> R) (x z : C),
+  rnd 1 = 1 -> eps <= / 64 -> z <> (0, 0) -> eta <= eps -> eta * Cmod z <= eps ->
+  Rabs (hyp (fst z) (snd z) - Cmod z) <= 2 * eps * Cmod z ->
+  let X := Cmod (Cdiv x z) in
+  let f := div_ (Rnd_ops_hyp rnd hyp) x z in
+  Rabs (fst f - fst (Cdiv x z))
+    <= 14 * eps * ((Rabs (fst x * fst z) + Rabs (snd x * snd z)) / (Cmod z * Cmod z)) + eta * (5 + 2 * X) /\
+  Rabs (snd f - snd (Cdiv x z))
+    <= 14 * eps * ((Rabs (snd x * fst z) + Rabs (fst x * snd z)) / (Cmod z * Cmod z)) + eta * (5 + 2 * X) /\
+  Cmod (Cminus f (Cdiv x z)) <= 19 * eps * X + eta * (7 + 3 * X).
+Proof. exact div_round. Qed.
+Print Assumptions c10_div_rounding_bound.
+(* ... at Rnd_ops rnd itself (correctly rounded hypot), |z| and 1/|z| in the normal range *)
+Theorem c10_inv_rounding_bound_cr : forall (rnd : R -> R) (eps eta : R), std_model rnd eps eta -> forall z : C,
+  rnd 1 = 1 -> eps <= / 64 -> z <> (0, 0) -> eta <= eps * Cmod z -> eta * Cmod z <= eps ->
+  let f := inv_ (Rnd_ops rnd) z in
+  Rabs (fst f - fst (Cinv z)) <= 11 * eps * (Rabs (fst z) / (Cmod z * Cmod z)) + 2 * eta * (1 + 1 / Cmod z) /\
+  Rabs (snd f - snd (Cinv z)) <= 11 * eps * (Rabs (snd z) / (Cmod z * Cmod z)) + 2 * eta * (1 + 1 / Cmod z) /\
+  Cmod (Cminus f (Cinv z)) <= 11 * eps * (1 / Cmod z) + 2 * eta * (1 + 1 / Cmod z).
+Proof. exact inv_round_cr. Qed.
+Print Assumptions c10_inv_rounding_bound_cr.
+Theorem c10_div_rounding_bound_cr : forall (rnd : R -> R) (eps eta : R), std_model rnd eps eta -> forall x z : C,
+  rnd 1 = 1 -> eps <= / 64 -> z <> (0, 0) -> eta <= eps * Cmod z -> eta * Cmod z <= eps ->
+  let X := Cmod (Cdiv x z) in
+  let f := div_ (Rnd_ops rnd) x z in
+  Rabs (fst f - fst (Cdiv x z))
+    <= 14 * eps * ((Rabs (fst x * fst z) + Rabs (snd x * snd z)) / (Cmod z * Cmod z)) + eta * (5 + 2 * X) /\
+  Rabs (snd f - snd (Cdiv x z))
+    <= 14 * eps * ((Rabs (snd x * fst z) + Rabs (fst x * snd z)) / (Cmod z * Cmod z)) + eta * (5 + 2 * X) /\
+  Cmod (Cminus f (Cdiv x z)) <= 19 * eps * X + eta * (7 + 3 * X).
+Proof. exact div_round_cr. Qed.
+Print Assumptions c10_div_rounding_bound_cr.
+(* ... for a modulus of ANY relative accuracy theta <= 1/2, without a smallness condition on eps: the bound as a function of
+   theta (iota_of, kappa_of, Gdiv, Ginv, Tof, Tinv are defined in C10/CxRound.v; Gdiv theta = (2 theta + 10 eps) + O(eps^2)) *)
+Theorem c10_inv_rounding_bound_general : forall (rnd : R -> R) (eps eta : R), std_model rnd eps eta ->
+  forall (hyp : R -> R -> R) (z : C) (theta : R),
+  rnd 1 = 1 -> z <> (0, 0) -> 0 <= theta <= / 2 -> eta * Cmod z <= eps ->
+  Rabs (hyp (fst z) (snd z) - Cmod z) <= theta * Cmod z ->
+  let u := 1 / Cmod z in
+  let f := inv_ (Rnd_ops_hyp rnd hyp) z in
+  Rabs (fst f - fst (Cinv z)) <= Ginv eps theta * (Rabs (fst z) * u * u) + Tinv eps eta theta u /\
+  Rabs (snd f - snd (Cinv z)) <= Ginv eps theta * (Rabs (snd z) * u * u) + Tinv eps eta theta u /\
+  Cmod (Cminus f (Cinv z)) <= Ginv eps theta * u + Rsqrt 2 * Tinv eps eta theta u.
+Proof. exact inv_round_gen. Qed.
+Print Assumptions c10_inv_rounding_bound_general.
+Theorem c10_div_rounding_bound_general : forall (rnd : R -> R) (eps eta : R), std_model rnd eps eta ->
+  forall (hyp : R -> R -> R) (x z : C) (theta : R),
+  rnd 1 = 1 -> z <> (0, 0) -> 0 <= theta <= / 2 -> eta * Cmod z <= eps ->
+  Rabs (hyp (fst z) (snd z) - Cmod z) <= theta * Cmod z ->
+  let k := kappa_of eps theta in
+  let X := Cmod x / Cmod z in
+  let T := Tof eps eta k (Rsqrt 2 * (1 + X)) in
+  let f := div_ (Rnd_ops_hyp rnd hyp) x z in
+  Rabs (fst f - fst (Cdiv x z))
+    <= Gdiv eps theta * ((Rabs (fst x * fst z) + Rabs (snd x * snd z)) / (Cmod z * Cmod z)) + T /\
+  Rabs (snd f - snd (Cdiv x z))
+    <= Gdiv eps theta * ((Rabs (snd x * fst z) + Rabs (fst x * snd z)) / (Cmod z * Cmod z)) + T /\
+  Cmod (Cminus f (Cdiv x z)) <= Rsqrt 2 * (Gdiv eps theta * X + T).
+Proof. exact div_round_gen. Qed.
+Print Assumptions c10_div_rounding_bound_general.
+
+(* the modulus: correctly rounded at Rnd_ops rnd; at Rnd_ops_fb rnd it IS the rounded a_real_norm2 of C11 *)
+Theorem c10_modulus_rounding_bound_cr : forall (rnd : R -> R) (eps eta : R), std_model rnd eps eta -> forall z : C,
+  Rabs (cabs (Rnd_ops rnd) z - Cmod z) <= eps * Cmod z + eta.
+Proof. exact cabs_round_cr. Qed.
+Print Assumptions c10_modulus_rounding_bound_cr.
+Theorem c10_modulus_fallback_is_norm2 : forall (rnd : R -> R) (z : C),
+  cabs (Rnd_ops_fb rnd) z = C11.MathDefs.real_norm2 (Rnd_ops rnd) (fst z) (snd z) /\
+  (forall hyp : R -> R -> R, cabs (Rnd_ops_hyp rnd hyp) z = hyp (fst z) (snd z)).
+Proof. intros rnd z. split; [exact (cabs_fb_is_norm2 rnd z)|exact (fun hyp => cabs_hyp rnd hyp z)]. Qed.
+Print Assumptions c10_modulus_fallback_is_norm2.
+Theorem c10_modulus_rounding_bound_fallback : forall (rnd : R -> R) (eps eta : R), std_model rnd eps eta -> forall z : C,
+  rnd 1 = 1 -> eps + eta <= / 64 ->
+  (fst z = 0 \/ 2 * eta <= Rabs (fst z)) -> (snd z = 0 \/ 2 * eta <= Rabs (snd z)) ->
+  Rabs (cabs (Rnd_ops_fb rnd) z - Cmod z) <= 7 / 2 * (eps + eta) * Cmod z + eta.
+Proof. exact cabs_round_fb. Qed.
+Print Assumptions c10_modulus_rounding_bound_fallback.
+Theorem c10_inv_rounding_bound_fallback : forall (rnd : R -> R) (eps eta : R), std_model rnd eps eta -> forall z : C,
+  rnd 1 = 1 -> eps <= / 128 -> z <> (0, 0) -> eta <= eps * Cmod z -> eta * Cmod z <= eps ->
+  (fst z = 0 \/ 2 * eta <= Rabs (fst z)) -> (snd z = 0 \/ 2 * eta <= Rabs (snd z)) ->
+  let f := inv_ (Rnd_ops_fb rnd) z in
+  Rabs (fst f - fst (Cinv z)) <= 26 * eps * (Rabs (fst z) / (Cmod z * Cmod z)) + 2 * eta * (1 + 1 / Cmod z) /\
+  Rabs (snd f - snd (Cinv z)) <= 26 * eps * (Rabs (snd z) / (Cmod z * Cmod z)) + 2 * eta * (1 + 1 / Cmod z) /\
+  Cmod (Cminus f (Cinv z)) <= 26 * eps * (1 / Cmod z) + 2 * eta * (1 + 1 / Cmod z).
+Proof. exact inv_round_fallback. Qed.
+Print Assumptions c10_inv_rounding_bound_fallback.
+Theorem c10_div_rounding_bound_fallback : forall (rnd : R -> R) (eps eta : R), std_model rnd eps eta -> forall x z : C,
+  rnd 1 = 1 -> eps <= / 128 -> z <> (0, 0) -> eta <= eps * Cmod z -> eta * Cmod z <= eps ->
+  (fst z = 0 \/ 2 * eta <= Rabs (fst z)) -> (snd z = 0 \/ 2 * eta <= Rabs (snd z)) ->
+  let X := Cmod (Cdiv x z) in
+  let f := div_ (Rnd_ops_fb rnd) x z in
+  Rabs (fst f - fst (Cdiv x z))
+    <= 29 * eps * ((Rabs (fst x * fst z) + Rabs (snd x * snd z)) / (Cmod z * Cmod z)) + eta * (5 + 2 * X) /\
+  Rabs (snd f - snd (Cdiv x z))
+    <= 29 * eps * ((Rabs (snd x * fst z) + Rabs (fst x * snd z)) / (Cmod z * Cmod z)) + eta * (5 + 2 * X) /\
+  Cmod (Cminus f (Cdiv x z)) <= 41 * eps * X + eta * (7 + 3 * X).
+Proof. exact div_round_fallback. Qed.
+Print Assumptions c10_div_rounding_bound_fallback.
+
+(* ---------------------------------------------------------------- IEEE binary64 (Flocq), overflow excluded *)
+Theorem c10_add_sub_rounding_bound_binary64 : forall x y : C,
+  (Rabs (fst (cadd (Rnd_ops rnd64) x y) - fst (Cplus x y)) <= eps64 * Rabs (fst (Cplus x y)) + eta64 /\
+   Rabs (snd (cadd (Rnd_ops rnd64) x y) - snd (Cplus x y)) <= eps64 * Rabs (snd (Cplus x y)) + eta64) /\
+  (Rabs (fst (csub (Rnd_ops rnd64) x y) - fst (Cminus x y)) <= eps64 * Rabs (fst (Cminus x y)) + eta64 /\
+   Rabs (snd (csub (Rnd_ops rnd64) x y) - snd (Cminus x y)) <= eps64 * Rabs (snd (Cminus x y)) + eta64).
+Proof. exact add_sub_round_binary64. Qed.
+Print Assumptions c10_add_sub_rounding_bound_binary64.
+Theorem c10_mul_rounding_bound_binary64 : forall x z : C,
+  Rabs (fst (mul_ (Rnd_ops rnd64) x z) - fst (Cmult x z))
+    <= (2 * eps64 + eps64 * eps64) * (Rabs (fst x * fst z) + Rabs (snd x * snd z)) + (3 + 2 * eps64) * eta64 /\
+  Rabs (snd (mul_ (Rnd_ops rnd64) x z) - snd (Cmult x z))
+    <= (2 * eps64 + eps64 * eps64) * (Rabs (fst x * snd z) + Rabs (snd x * fst z)) + (3 + 2 * eps64) * eta64 /\
+  Cmod (Cminus (mul_ (Rnd_ops rnd64) x z) (Cmult x z))
+    <= Rsqrt 2 * ((2 * eps64 + eps64 * eps64) * (Cmod x * Cmod z) + (3 + 2 * eps64) * eta64).
+Proof. exact mul_round_binary64. Qed.
+Print Assumptions c10_mul_rounding_bound_binary64.
+Theorem c10_scalar_rounding_bound_binary64 : forall (x : C) (y : R),
+  (Rabs (fst (mul_real (Rnd_ops rnd64) x y) - fst x * y) <= eps64 * Rabs (fst x * y) + eta64 /\
+   Rabs (snd (mul_real (Rnd_ops rnd64) x y) - snd x * y) <= eps64 * Rabs (snd x * y) + eta64) /\
+  (Rabs (fst (mul_imag (Rnd_ops rnd64) x y) - (- snd x * y)) <= eps64 * Rabs (- snd x * y) + eta64 /\
+   Rabs (snd (mul_imag (Rnd_ops rnd64) x y) - fst x * y) <= eps64 * Rabs (fst x * y) + eta64) /\
+  (y <> 0 ->
+   (Rabs (fst (div_real (Rnd_ops rnd64) x y) - fst x / y) <= eps64 * Rabs (fst x / y) + eta64 /\
+    Rabs (snd (div_real (Rnd_ops rnd64) x y) - snd x / y) <= eps64 * Rabs (snd x / y) + eta64) /\
+   (Rabs (fst (div_imag (Rnd_ops rnd64) x y) - snd x / y) <= eps64 * Rabs (snd x / y) + eta64 /\
+    Rabs (snd (div_imag (Rnd_ops rnd64) x y) - (- fst x / y)) <= eps64 * Rabs (- fst x / y) + eta64)).
+Proof. exact scalar_round_binary64. Qed.
+Print Assumptions c10_scalar_rounding_bound_binary64.
+Theorem c10_inv_rounding_bound_binary64 : forall z : C, z <> (0, 0) -> eta64 <= eps64 * Cmod z -> eta64 * Cmod z <= eps64 ->
+  Cmod (Cminus (inv_ (Rnd_ops rnd64) z) (Cinv z)) <= 11 * eps64 * (1 / Cmod z) + 2 * eta64 * (1 + 1 / Cmod z).
+Proof. exact inv_round_binary64. Qed.
+Print Assumptions c10_inv_rounding_bound_binary64.
+Theorem c10_div_rounding_bound_binary64 : forall x z : C, z <> (0, 0) -> eta64 <= eps64 * Cmod z -> eta64 * Cmod z <= eps64 ->
+  let X := Cmod (Cdiv x z) in
+  Rabs (fst (div_ (Rnd_ops rnd64) x z) - fst (Cdiv x z))
+    <= 14 * eps64 * ((Rabs (fst x * fst z) + Rabs (snd x * snd z)) / (Cmod z * Cmod z)) + eta64 * (5 + 2 * X) /\
+  Rabs (snd (div_ (Rnd_ops rnd64) x z) - snd (Cdiv x z))
+    <= 14 * eps64 * ((Rabs (snd x * fst z) + Rabs (fst x * snd z)) / (Cmod z * Cmod z)) + eta64 * (5 + 2 * X) /\
+  Cmod (Cminus (div_ (Rnd_ops rnd64) x z) (Cdiv x z)) <= 19 * eps64 * X + eta64 * (7 + 3 * X).
+Proof. exact div_round_binary64. Qed.
+Print Assumptions c10_div_rounding_bound_binary64.
+(* every binary64 number is 0 or at least 2^-1074 = 2 eta64 in magnitude: the side conditions on the components hold for all
+   floating-point arguments *)
+Theorem c10_modulus_rounding_bound_fallback_binary64 : forall z : C,
+  (fst z = 0 \/ 2 * eta64 <= Rabs (fst z)) -> (snd z = 0 \/ 2 * eta64 <= Rabs (snd z)) ->
+  Rabs (cabs (Rnd_ops_fb rnd64) z - Cmod z) <= 7 / 2 * (eps64 + eta64) * Cmod z + eta64.
+Proof. exact cabs_round_fallback_binary64. Qed.
+Print Assumptions c10_modulus_rounding_bound_fallback_binary64.
+Theorem c10_inv_div_rounding_bound_fallback_binary64 : forall x z : C,
+  z <> (0, 0) -> eta64 <= eps64 * Cmod z -> eta64 * Cmod z <= eps64 ->
+  (fst z = 0 \/ 2 * eta64 <= Rabs (fst z)) -> (snd z = 0 \/ 2 * eta64 <= Rabs (snd z)) ->
+  let X := Cmod (Cdiv x z) in
+  Cmod (Cminus (inv_ (Rnd_ops_fb rnd64) z) (Cinv z)) <= 26 * eps64 * (1 / Cmod z) + 2 * eta64 * (1 + 1 / Cmod z) /\
+  Cmod (Cminus (div_ (Rnd_ops_fb rnd64) x z) (Cdiv x z)) <= 41 * eps64 * X + eta64 * (7 + 3 * X).
+Proof. exact inv_div_round_fallback_binary64. Qed.
+Print Assumptions c10_inv_div_rounding_bound_fallback_binary64.
+
+(* ---------------------------------------------------------------- non-vacuity of the rounding theorems
+   _id: the identity rounding (eps = eta = 0, rnd 1 = 1) meets every hypothesis for every z <> 0, all bounds are 0 and the
+        rounded instance returns the exact inverse, quotient and product;
+   _scale: the inexact model rnd v = 9/8 v: (1+2i)(3+4i) is computed as -405/64 + 405/32 i; the imaginary part ATTAINS the bound;
+   _binary64: z = 3 + 4i, x = 1 + 2i meet the range hypotheses in binary64 (both modulus instances). *)
+Theorem c10_rounding_nonvacuous_id : forall x z : C, z <> (0, 0) ->
+  inv_ (Rnd_ops (fun v => v)) z = Cinv z /\ div_ (Rnd_ops (fun v => v)) x z = Cdiv x z /\
+  mul_ (Rnd_ops (fun v => v)) x z = Cmult x z.
+Proof. exact inv_div_round_id. Qed.
+Print Assumptions c10_rounding_nonvacuous_id.
+Theorem c10_rounding_nonvacuous_scale :
+  let rnd := fun v => v * (1 + / 8) in
+  mul_ (Rnd_ops rnd) (1, 2) (3, 4) = (- (405 / 64), 405 / 32) /\ Cmult (1, 2) (3, 4) = (-5, 10) /\
+  Rabs (- (405 / 64) - -5) <= (2 * / 8 + / 8 * / 8) * (Rabs (1 * 3) + Rabs (2 * 4)) + (3 + 2 * / 8) * 0 /\
+  Rabs (405 / 32 - 10) = (2 * / 8 + / 8 * / 8) * (Rabs (1 * 4) + Rabs (2 * 3)) + (3 + 2 * / 8) * 0 /\
+  cadd (Rnd_ops rnd) (1, 2) (3, 4) = (9 / 2, 27 / 4) /\ Cplus (1, 2) (3, 4) = (4, 6) /\
+  Rabs (9 / 2 - 4) = / 8 * Rabs 4 + 0 /\ Rabs (27 / 4 - 6) = / 8 * Rabs 6 + 0.
+Proof. exact mul_add_round_scale. Qed.
+Print Assumptions c10_rounding_nonvacuous_scale.
+Theorem c10_rounding_nonvacuous_binary64 :
+  Cmod (Cminus (inv_ (Rnd_ops rnd64) (3, 4)) (Cinv (3, 4))) <= 11 * eps64 * (1 / 5) + 2 * eta64 * (1 + 1 / 5) /\
+  Cmod (Cminus (div_ (Rnd_ops rnd64) (1, 2) (3, 4)) (Cdiv (1, 2) (3, 4)))
+    <= 19 * eps64 * Cmod (Cdiv (1, 2) (3, 4)) + eta64 * (7 + 3 * Cmod (Cdiv (1, 2) (3, 4))) /\
+  Cmod (Cminus (div_ (Rnd_ops_fb rnd64) (1, 2) (3, 4)) (Cdiv (1, 2) (3, 4)))
+    <= 41 * eps64 * Cmod (Cdiv (1, 2) (3, 4)) + eta64 * (7 + 3 * Cmod (Cdiv (1, 2) (3, 4))).
+Proof. exact inv_div_round_binary64_ex. Qed.
+Print Assumptions c10_rounding_nonvacuous_binary64.
